@@ -110,6 +110,31 @@ def nesting_texts(depth):
     return out
 
 
+def hygiene_texts():
+    """Quantifiers that re-bind, shadow, leak or never use a variable, at every depth and below every
+    operator, through every entry point (sanity errors are documented; anything else is not)."""
+    inner = ['exists x in ys: @x > 0', 'forall x in ys: @x > @x', 'exists x in [0 to 3]: xs[@x] > 0', 'exists y in ys: @y > 0', 'exists y in ys: @y > @x', 'exists y in ys: p']
+    wraps = ['%s', 'b and %s', '%s or b', 'not %s', 'b implies %s', '@x > 0 and %s', '(%s) and @x > 0', 'not (b and not %s)', 'b and (q or %s)', '(exists z in zs: @z > 0) and %s',
+             'exists y in [0 to int(%s)]: @y > 0', 'exists y in {int(%s), 1}: @y > @x', 'xs[int(%s)] > 0', 'xs[int(%s)] > @x', 'exists z in zs: (@z > 0 and %s)', 'exists z in zs: (@z > @x and %s)']
+    outer = ['forall x in xs: (%s)', 'exists x in {1, 2}: (%s)', 'w and forall x in xs: (%s)', '(forall x in xs: (%s)) or @x > 0']
+    bodies = []
+    for o in outer:
+        for w in wraps:
+            for i in inner:
+                bodies.append(o % (w % ('(' + i + ')')))
+    bodies += ['forall x in xs: p', 'forall x in @x: @x > 0', 'forall x in xs[@x]: @x > 0', 'forall x in [0 to @x]: @x > 0', 'forall x in {@x}: @x > 0', '@x > 0', 'forall x in xs: @y > 0', 'forall x in xs: (@x > 0 and @y > 0)']
+    out = []
+    for body in bodies:
+        out.append(('expr', body))
+        out.append(('cond', body))
+        out.append(('pred', '{ ' + body + ' }'))
+        out.append(('prop', 'globally: no t { ' + body + ' }'))
+        out.append(('prop', 'after s as x: no t { ' + body + ' }'))
+        out.append(('prop', 'after s as A {' + body + '}: t {@A.k > 0} causes u { ' + body + ' } within 1 s'))
+        out.append(('spec', '# id: p1\nglobally: some t { ' + body + ' }\n# id: p2\nglobally: no u'))
+    return out
+
+
 HISTORY_POOL = {
     'prop': [
         'globally: no a', '# id: p1 globally: some b {x > 1} within 100 ms', '# id: p2 # title: "t" after a as A: b {x = @A.x} causes c', 'globally: no a {',
@@ -147,6 +172,7 @@ def plan(tier):
         for c in AWKWARD:
             units.append(('chars', tier, kind, c))
     units.append(('nesting', tier))
+    units.append(('hygiene', tier))
     for kind in HISTORY_POOL:
         for first in range(len(HISTORY_POOL[kind])):
             units.append(('history', tier, kind, first))
@@ -207,6 +233,11 @@ def run(unit):
             check_text(kind, text, r, len(text))
         r.count('states', r.counters['evaluations'])
         r.sample({'nesting': nesting_texts(5)[5][1]})
+    elif what == 'hygiene':
+        for kind, text in hygiene_texts():
+            check_text(kind, text, r, len(text))
+        r.count('states', r.counters['evaluations'])
+        r.sample({'hygiene': hygiene_texts()[7][1]})
     elif what == 'history':
         _, _, kind, first = unit
         pool = HISTORY_POOL[kind]
